@@ -2,7 +2,6 @@
 package jsonSubProto
 
 import (
-	"bytes"
 	"encoding/json"
 	"fmt"
 	"io/ioutil"
@@ -68,7 +67,7 @@ func (j *jsonSubProto) Pack(m erpc.Message) error {
 		m.ServiceMethod(),
 		m.Meta().QueryString(),
 		m.BodyCodec(),
-		bytes.Replace(bodyBytes, []byte{'"'}, []byte{'\\', '"'}, -1),
+		escapeBody(bodyBytes),
 		xferPipeIDsBytes,
 	)
 
@@ -78,6 +77,24 @@ func (j *jsonSubProto) Pack(m erpc.Message) error {
 
 	_, err = j.rw.Write(b)
 	return err
+}
+
+// escapeBody escapes the body for embedding in a JSON string: the backslash, the
+// double quote and the control characters (the receiver stops at a raw one).
+func escapeBody(b []byte) []byte {
+	const hex = "0123456789abcdef"
+	out := make([]byte, 0, len(b)+len(b)/8)
+	for _, c := range b {
+		switch {
+		case c == '\\' || c == '"':
+			out = append(out, '\\', c)
+		case c < ' ':
+			out = append(out, '\\', 'u', '0', '0', hex[c>>4], hex[c&0xf])
+		default:
+			out = append(out, c)
+		}
+	}
+	return out
 }
 
 // Unpack reads bytes from the connection to the Message.
